@@ -67,8 +67,11 @@ def setup():
     _ENV["ready"] = True
     from simkit.core import Streams, derive_seed
 
-    for i in range(150):  # warm lazily imported paths once, before workers are forked
-        run_case(gen_case(Streams(derive_seed("warm", i)), "quick"))
+    try:
+        for i in range(150):  # warm lazily imported paths once, before workers are forked
+            run_case(gen_case(Streams(derive_seed("warm", i)), "quick"))
+    except Exception:  # noqa: BLE001 - warm-up only
+        pass
 
 
 # ------------------------------------------------------------------------------------------------
